@@ -63,7 +63,16 @@ def rewrites(line, shape, v):
         yield 'sign-convention-16', '%s %s' % (mn, re.sub(r'-%d$' % -v, '%d' % (v + 2 ** 16), ops))
     if v is not None and v < 0 and shape in ('r8,i', 'al,i', 'm8,i') and v >= -2 ** 7:
         yield 'sign-convention-8', '%s %s' % (mn, re.sub(r'-%d$' % -v, '%d' % (v + 2 ** 8), ops))
-    m = re.search(r'\[(e[a-z]{2})([+-])(\d+)\]', ops)
+    m = re.search(r'(?<![\w\]])(-?)(\d+)\+some_symbol\[([^\]]+)\]', ops)
+    if m:
+        sg, d, inner = m.groups()
+        yield 'sym-disp-inside', '%s %s' % (mn, ops.replace(m.group(0), 'some_symbol[%s%s%s]' % (inner, sg or '+', d)))
+    m = re.search(r'(?<![\w\]+])(-?\d+)\[([^\]]+?)([+-]\d+)\]', ops)
+    if m:
+        outer, inner, d = m.groups()
+        tot = int(outer) + int(d)
+        yield 'disp-sum', '%s %s' % (mn, ops.replace(m.group(0), '[%s%s%d]' % (inner, '+' if tot >= 0 else '-', abs(tot))))
+    m = re.search(r'(?<![\w\]])\[(e[a-z]{2})([+-])(\d+)\]', ops)
     if m:
         r, sg, d = m.groups()
         dd = ('-' if sg == '-' else '') + d
